@@ -18,8 +18,10 @@ def run(ctx):
             d["rot"] = (i + ctx.seed + k * 7) % 18
             d["focus"] = "C17"
             allc.append(d)
+            if i % 3 == 0 and k == 0:
+                allc.append(dict(d, foreign_owner=True))
     ctx.exhaustive = True
-    ctx.evaluate(A.evaluate, allc, label="tree", chunk=100, key=lambda c: core._digest([c["obj"], c["rot"]]))
+    ctx.evaluate(A.evaluate, allc, label="tree", chunk=100, key=lambda c: core._digest([c["obj"], c["rot"], c.get("foreign_owner")]))
     ctx.evaluate(A.eval_legacy_view, [c for i, c in enumerate(allc) if c["rot"] % 3 == 0], label="legacy-view", chunk=100)
 
 
